@@ -247,6 +247,27 @@ pub fn dump_forest(dom: &WeakDom, roots: &[Ref]) -> J {
 }
 
 /// Dump of a decoded DOM: the children of its root.
+/// Blank the value of every `UniqueId` property in a dump: WeakDom replaces a repeated id with `UniqueId::now()`
+/// (C12), so two decodes of one file legitimately differ there.
+pub fn mask_unique_id(v: &mut J) {
+    match v {
+        J::Object(o) => {
+            if let Some(p) = o.get_mut("props").and_then(|p| p.as_object_mut()) {
+                if let Some(u) = p.get_mut("UniqueId") {
+                    if u["t"] == "UniqueId" {
+                        *u = serde_json::json!({"t": "UniqueId"});
+                    }
+                }
+            }
+            for (_, x) in o.iter_mut() {
+                mask_unique_id(x);
+            }
+        }
+        J::Array(a) => a.iter_mut().for_each(mask_unique_id),
+        _ => {}
+    }
+}
+
 pub fn dump_decoded(dom: &WeakDom) -> J {
     let roots: Vec<Ref> = dom.root().children().to_vec();
     dump_forest(dom, &roots)
